@@ -213,6 +213,13 @@ def _wf_inner(x, y, *, z):
     return (x, y, z)
 
 
+def _safe(fn):
+    try:
+        return fn()
+    except BaseException as e:  # noqa: BLE001
+        return ('EXC', type(e).__name__)
+
+
 class WScenario(object):
     """A shared function w and the facts the comparison needs, all measured on
     the implementation *before* any concurrent run:
@@ -224,7 +231,9 @@ class WScenario(object):
 
     def __init__(self, name):
         self.name = name
-        f = _wf_inner
+
+        def f(x, y, *, z):          # a fresh wrapped function per scenario object
+            return (x, y, z)
         self.f = f
         if name in ('wraps', 'wraps+sig'):
             def w(a, *args, **kwargs):
@@ -236,7 +245,7 @@ class WScenario(object):
             star_raw = False
         else:
             raise KeyError(name)
-        raw = str(inspect.signature(w))          # no attribute set yet: the wrapper's own
+        raw = _safe(lambda: str(inspect.signature(w)))   # no attribute set yet: the wrapper's own
         self.w = w
         self.sig0 = None
         if name != 'sig-only':
@@ -249,12 +258,12 @@ class WScenario(object):
         self.init = (W_VAL if name != 'sig-only' else None, S_VAL if self.sig0 is not None else None)
         self.cfg = (star_raw, False, False)
         self.tracked = [w]
-        self.strings = {1: raw, 2: str(inspect.signature(f))}
+        self.strings = {1: raw, 2: _safe(lambda: str(inspect.signature(f)))}
         if self.sig0 is not None:
             self.strings[3] = str(self.sig0)
         self.solo = {}
-        self.solo[KPLAIN] = self.call(KPLAIN)()
-        self.solo[KSIG] = self.call(KSIG)()
+        self.solo[KPLAIN] = _safe(self.call(KPLAIN))
+        self.solo[KSIG] = _safe(self.call(KSIG))
         if star_raw:
             self.strings[4] = self.solo[KSIG]
         # the specification of the solo answers, written down independently
@@ -293,7 +302,7 @@ class WScenario(object):
         return self.final() == self.init
 
     # the harness' own reading of "the windows overlap", from the observed events
-    WINDOW = set([408, 409, 410, 411, 412, 413, 415, 202, 501, 502])
+    WINDOW = set([409, 410, 411, 414, 415, 416, 417, 418, 419, 421, 202, 203, 501, 502])
 
     def overlap(self, kinds, events):
         """True iff some step that reads/changes the shared attributes (or enters
@@ -304,7 +313,7 @@ class WScenario(object):
         inwin = [False] * n
         for tid, code in events:
             prev = last[tid]
-            sens = inwin[tid] or prev == 407 or prev == 193 or (prev is None and kinds[tid] == KPLAIN)
+            sens = inwin[tid] or prev == 408 or prev == 193 or (prev is None and kinds[tid] == KPLAIN)
             if sens and any(inwin[u] for u in range(n) if u != tid):
                 return True
             last[tid] = code
@@ -312,7 +321,7 @@ class WScenario(object):
                 inwin[tid] = True
             elif code == 201 and inwin[tid]:
                 pass                 # the with line on the way out
-            elif code == 203 or code == 0:
+            elif code == 208 or code == 0:
                 inwin[tid] = False
         return False
 
@@ -348,7 +357,7 @@ def run_one(sc, kinds, plan):
 # ----------------------------------------------------------------------------
 # plans (mirror of Model/Sched.v all_plans; order irrelevant)
 # ----------------------------------------------------------------------------
-K_MAX = 45
+K_MAX = 70
 
 
 def all_plans(nthreads, budget, K=K_MAX):
@@ -576,6 +585,8 @@ def explore_W(ctx, rep, workers):
                 rep.violation('C17:solo-answer', '%s: %s alone returns %s, expected %s'
                               % (name, k, sc.solo[k], sc.spec[k]),
                               {'machine': 'W', 'scenario': name, 'kinds': [k], 'plan': [[0, None]]})
+        if sc.solo != sc.spec:
+            continue
         if not sc.intact():
             rep.violation('C17:lost-attribute',
                           '%s: after a single-threaded retrieval the function has (__wrapped__, __signature__) = %s, initially %s'
@@ -612,10 +623,12 @@ def explore_W(ctx, rep, workers):
                 rep.violation(key, what, {'machine': 'W', 'scenario': sc.name, 'kinds': kinds,
                                           'plan': [list(x) for x in p]})
             if not agrees:
-                try:
-                    mo = model_outcome(sc, kinds, p)
-                except coqrun.CoqError as e:
-                    mo = 'coq error: %s' % e
+                mo = 'see Model/Sched.v run_plan'
+                if len(rep.corr_breaks) < 2:
+                    try:
+                        mo = model_outcome(sc, kinds, p)
+                    except coqrun.CoqError as e:
+                        mo = 'coq error: %s' % e
                 rep.corr_break('C17 machine W: plan outcome (answers, line traces, final attributes, overlap)',
                                {'scenario': sc.name, 'kinds': kinds, 'plan': [list(x) for x in p]},
                                mo, {k: o[k] for k in ('status', 'nums', 'results', 'traces', 'final', 'excl')})
@@ -656,7 +669,7 @@ class GScenario(object):
         self.tracked = [self.o]
         o = self.o
         self.fn = lambda: str(inspect.signature(o))
-        self.solo = self.fn()
+        self.solo = _safe(self.fn)
         self.rawcall = str(inspect.signature(_Forged.__call__.__get__(o)))
 
     def call(self, kind):
@@ -687,13 +700,13 @@ class CScenario(object):
         k = self.k
         self.fns = {KSIG: lambda: str(sigtools.signature(k.meth)),
                     KPLAIN: lambda: str(inspect.signature(k.meth))}
-        self.solo = {KSIG: self.fns[KSIG](), KPLAIN: self.fns[KPLAIN]()}
+        self.solo = {KSIG: _safe(self.fns[KSIG]), KPLAIN: _safe(self.fns[KPLAIN])}
 
     def call(self, kind):
         return self.fns[kind]
 
     def final_ok(self):
-        return self.fns[KSIG]() == self.solo[KSIG] and self.k.meth(1, b=2) == (1, 2)
+        return _safe(self.fns[KSIG]) == self.solo[KSIG] and _safe(lambda: self.k.meth(1, b=2)) == (1, 2)
 
 
 def _worker_GC(job):
@@ -913,7 +926,7 @@ def stress(ctx, rep, seconds):
 # entry points
 # ----------------------------------------------------------------------------
 WITNESS = {'machine': 'W', 'scenario': 'wraps', 'kinds': [KSIG, KSIG],
-           'plan': [[0, 23], [1, 22], [0, None], [1, None]]}
+           'plan': [[0, 25], [1, 26], [0, None], [1, None]]}
 
 
 GUARD_WITNESS = {'machine': 'G', 'n': 2, 'plan': [[0, 5], [1, None], [0, None]]}
@@ -989,11 +1002,17 @@ def replay(ctx, data):
 def replay_known(ctx, k):
     if k.get('key') == KNOWN_KEY:
         w = k.get('witness') or WITNESS
-        sc, kinds, plan, o = _replay_W(w)
-        if o['status'] != 'ok':
-            return False
-        views = set(sc.strings[n] for n in (1, 2, 3) if n in sc.strings)
-        return any(r != sc.solo[kd] and r in views for kd, r in zip(kinds, o['results']))
+        # the listed plan first; its step counts move when lines are added to the modelled
+        # functions, so then the same shape (A preempted after k steps, B after k-1) nearby
+        cands = [w] + [dict(w, plan=[[0, kk], [1, kk - 1], [0, None], [1, None]]) for kk in range(15, 45)]
+        for cand in cands:
+            sc, kinds, plan, o = _replay_W(cand)
+            if o['status'] != 'ok':
+                continue
+            views = set(sc.strings[n] for n in (1, 2, 3) if n in sc.strings)
+            if any(r != sc.solo[kd] and r in views for kd, r in zip(kinds, o['results'])):
+                return True
+        return False
     if k.get('key') == GUARD_KEY:
         w = k.get('witness') or GUARD_WITNESS
         plan = [(t, n) for t, n in w['plan']]
